@@ -87,6 +87,8 @@ fn spawn_worker() -> Worker {
 /// not answer within `deadline_ms` is reported as `<case>\tHANG\t-` (the child is
 /// killed and restarted), a child that dies as `<case>\tCRASH\t-`.
 pub fn supervised<F: FnMut(&str) -> String>(deadline_ms: u64, mut f: F) {
+    // VERIF_DEADLINE_MS overrides the per-case deadline (long stress inputs)
+    let deadline_ms = std::env::var("VERIF_DEADLINE_MS").ok().and_then(|s| s.parse::<u64>().ok()).unwrap_or(deadline_ms);
     if std::env::var("VERIF_WORKER").is_ok() {
         quiet_panics();
         let stdin = io::stdin();
